@@ -85,7 +85,7 @@ def value_contract(col, kind, normalized, alpha, radii):
         except Exception:  # noqa: BLE001
             same = False
         if same:
-            col.failures[-1]["case_id"] = "coulomb_gaussian_p:values:known-tail-coefficient"
+            col.last_failure["case_id"] = "coulomb_gaussian_p:values:known-tail-coefficient"
 
 
 def structural_contracts(col, g):
